@@ -667,6 +667,31 @@ fn api_battery(sum: &mut Summary) {
             check(&format!("ThinVec::try_extend_from_within({}..{})", s, e2), got == exp && tc.as_slice() == &vc[..], format!("ok={} -> {:?}", got, tc.as_slice()));
         }
         drop(t); drop(f); drop(e); drop(iv); drop(v); drop(v2);
+        // Drain as an iterator, in lock-step with Vec's drain: every sequence of three calls among next / next_back / nth / len
+        #[derive(Clone, Copy, Debug)] enum C { Next, NextBack, Nth(usize), Len }
+        let calls = [C::Next, C::NextBack, C::Nth(0), C::Nth(1), C::Nth(9), C::Len];
+        for a in calls { for b in calls { for c in calls { for kind in 0..2 {
+            let mut sv: Vec<Rc<u32>> = (0..6).map(m).collect();
+            let mut log_s: Vec<Option<Option<u32>>> = vec![]; let mut log_h: Vec<Option<Option<u32>>> = vec![];
+            let mut len_s = vec![]; let mut len_h = vec![];
+            { let mut d = sv.drain(1..5); for x in [a, b, c] { match x { C::Next => log_s.push(Some(d.next().map(|r| *r))), C::NextBack => log_s.push(Some(d.next_back().map(|r| *r))), C::Nth(k) => log_s.push(Some(d.nth(k).map(|r| *r))), C::Len => len_s.push(d.len()) } } }
+            let after_h: Vec<u32>;
+            if kind == 0 {
+                let mut hv: ThinVec<Rc<u32>, Reserved> = (0..6).map(m).collect();
+                { let mut d = hv.drain(1..5); for x in [a, b, c] { match x { C::Next => log_h.push(Some(d.next().map(|r| *r))), C::NextBack => log_h.push(Some(d.next_back().map(|r| *r))), C::Nth(k) => log_h.push(Some(d.nth(k).map(|r| *r))), C::Len => len_h.push(d.len()) } } }
+                after_h = hv.as_slice().iter().map(|r| **r).collect();
+            } else {
+                let mut hv: InlineVec<Rc<u32>, 8> = (0..6).map(m).collect();
+                { let mut d = hv.drain(1..5); for x in [a, b, c] { match x { C::Next => log_h.push(Some(d.next().map(|r| *r))), C::NextBack => log_h.push(Some(d.next_back().map(|r| *r))), C::Nth(k) => log_h.push(Some(d.nth(k).map(|r| *r))), C::Len => len_h.push(d.len()) } } }
+                after_h = hv.as_slice().iter().map(|r| **r).collect();
+            }
+            let after_s: Vec<u32> = sv.iter().map(|r| **r).collect();
+            check(&format!("{}::drain(1..5) then {:?}, {:?}, {:?}", if kind == 0 { "ThinVec" } else { "InlineVec" }, a, b, c), log_s == log_h && len_s == len_h && after_s == after_h, format!("yielded {:?} lens {:?} left {:?}; Vec: {:?} {:?} {:?}", log_h, len_h, after_h, log_s, len_s, after_s));
+        } } } }
+        // collecting many elements from an honest iterator with an exact hint (buffers beyond any internal preallocation cap)
+        { let t: ThinVec<u64, Reserved> = (0..9000u64).collect(); check("ThinVec collect of 9000 u64", t.len() == 9000 && t.as_slice().iter().copied().eq(0..9000u64), format!("len {}", t.len())); }
+        { let t: ThinVec<u8, Reserved> = (0..70_000u32).map(|x| x as u8).collect(); check("ThinVec collect of 70000 u8", t.len() == 70_000 && t.as_slice()[69_999] == (69_999u32 as u8), format!("len {}", t.len())); }
+        { let t: ThinVec<String, Reserved> = (0..3000).map(|i| i.to_string()).collect(); check("ThinVec collect of 3000 String", t.len() == 3000 && t.as_slice()[2999] == "2999", format!("len {}", t.len())); }
         // the Copy twins
         let data: Vec<u8> = (0..12).collect();
         let mut ic: InlineVec<u8, 16> = InlineVec::from_slice_copy(&data[..5]); let mut vc: Vec<u8> = data[..5].to_vec();
@@ -703,6 +728,57 @@ fn api_battery(sum: &mut Summary) {
     check("clean allocator", alloc::snap().errors == before, alloc::error_detail());
 }
 
+/// Scenario battery (oracle only, not modelled): API paths the model has no operation for -- iterator methods of Drain / IntoIter
+/// (nth, nth_back, skip, step_by, rev, len), Extend / FromIterator, const_append, clone, a droppable ThinVec prefix whose `Default`
+/// is user code -- each run once to count the user callbacks, then once per callback position with a panic injected there.
+/// Whatever happens, the identity registry must see no element dropped twice, none dropped that was never created (a slot the
+/// length wrongly covers), and the allocator monitor no error.  Without injection every element created must be gone at the end.
+fn scenario_battery(sum: &mut Summary, inject: bool) {
+    struct Pfx(El);
+    impl Default for Pfx { fn default() -> Self { if tick() { reg(|r| r.log.push(Ev::Panic)); panic!("injected panic in Default"); } Pfx(fresh(777)) } }
+    fn els(n: u64) -> Vec<El> { (0..n).map(fresh).collect() }
+    fn thin(n: u64) -> ThinVec<El, Reserved> { let mut v = ThinVec::new(); for e in els(n) { v.push(e); } v }
+    fn inl(n: u64) -> InlineVec<El, CAP> { let mut v = InlineVec::new(); for e in els(n) { v.push(e); } v }
+    let scenarios: Vec<(&str, Box<dyn Fn()>)> = vec![
+        ("ThinVec drain(1..5).nth(2), next, len", Box::new(|| { let mut v = thin(6); { let mut d = v.drain(1..5); let a = d.nth(2); let b = d.next(); let _ = d.len(); drop((a, b)); } drop(v); })),
+        ("ThinVec drain(1..5).nth(9) then next", Box::new(|| { let mut v = thin(6); { let mut d = v.drain(1..5); let a = d.nth(9); let b = d.next(); drop((a, b)); } drop(v); })),
+        ("InlineVec drain(1..5).nth(1), nth_back(1)", Box::new(|| { let mut v = inl(6); { let mut d = v.drain(1..5); let a = d.nth(1); let b = d.nth_back(1); drop((a, b)); } drop(v); })),
+        ("InlineVec drain(..).skip(1).step_by(2).collect", Box::new(|| { let mut v = inl(7); let got: Vec<El> = v.drain(..).skip(1).step_by(2).collect(); drop(got); drop(v); })),
+        ("ThinVec drain(2..).rev().skip(1).collect", Box::new(|| { let mut v = thin(6); let got: Vec<El> = v.drain(2..).rev().skip(1).collect(); drop(got); drop(v); })),
+        ("ThinVec drain(0..3) dropped at once, then push", Box::new(|| { let mut v = thin(5); drop(v.drain(0..3)); v.push(fresh(9)); drop(v); })),
+        ("InlineVec into_iter().nth(2), nth_back(1), drop", Box::new(|| { let v = inl(7); let mut it = v.into_iter(); let a = it.nth(2); let b = it.nth_back(1); drop((a, b)); drop(it); })),
+        ("InlineVec into_iter().rev().skip(2).collect", Box::new(|| { let v = inl(6); let got: Vec<El> = v.into_iter().rev().skip(2).collect(); drop(got); })),
+        ("InlineVec extend(iter) / collect", Box::new(|| { let mut v = inl(2); v.extend(mk_it(&[1, 2, 3], 0)); let w: InlineVec<El, CAP> = mk_it(&[4, 5], 5).collect(); drop((v, w)); })),
+        ("ThinVec collect with a lying exact hint, then truncate", Box::new(|| { let mut w: ThinVec<El, Reserved> = mk_it(&[4, 5, 6, 7, 8, 9], 3).collect(); w.truncate(2); drop(w); })),
+        ("InlineVec clone, then ThinVec::from(clone)", Box::new(|| { let v = inl(4); let c = v.clone(); let t: ThinVec<El, Reserved> = ThinVec::from(c); drop((v, t)); })),
+        ("InlineVec const_append / append", Box::new(|| { let mut a = inl(3); let mut b: InlineVec<El, 4> = InlineVec::new(); for e in els(3) { b.push(e); } a.const_append(&mut b); let mut c = inl(1); a.append(&mut c); drop((a, b, c)); })),
+        ("InlineVec resize_with / resize / truncate / clear", Box::new(|| { let mut v = inl(3); v.resize_with(6, || { if tick() { panic!("injected panic in closure"); } fresh(5) }); let x = fresh(6); v.resize(7, x); v.truncate(4); v.resize(2, fresh(8)); v.clear(); drop(v); })),
+        ("ThinVec resize / truncate / clear / extend_from_within", Box::new(|| { let mut v = thin(3); let x = fresh(6); v.resize(6, x); v.extend_from_within(1..4); v.truncate(5); v.clear(); drop(v); })),
+        ("ThinVec with a droppable prefix built by user code: new, push, split_off, drop", Box::new(|| { let mut v: ThinVec<El, Pfx> = ThinVec::new(); for e in els(4) { v.push(e); } let w = v.split_off(2); drop((v, w)); })),
+        ("ThinVec<_, Pfx>::with_capacity / from slice", Box::new(|| { let v: ThinVec<El, Pfx> = ThinVec::with_capacity(3); let src = els(2); let w: ThinVec<El, Pfx> = ThinVec::from(&src[..]); drop((v, w, src)); })),
+        ("ThinVec swap_remove / remove / insert out of bounds after valid ones", Box::new(|| { let mut v = thin(3); let a = v.swap_remove(0); let r = quiet_catch(AssertUnwindSafe(|| { let _ = v.swap_remove(7); })); assert!(r.is_err()); assert_eq!(v.len(), 2); let r = quiet_catch(AssertUnwindSafe(|| { let _ = v.remove(2); })); assert!(r.is_err()); assert_eq!(v.len(), 2); drop((a, v)); })),
+    ];
+    for (name, sc) in &scenarios {
+        let mut run = |pan: Option<u64>| -> u64 {
+            breadcrumb(&format!("vec scenario battery: {} pan={:?}", name, pan));
+            reg(|r| { *r = Registry::default(); r.pan = pan; });
+            let before = alloc::snap().errors;
+            let r = quiet_catch(AssertUnwindSafe(|| sc()));
+            let (errs, live, cbs, fired) = reg(|r| (std::mem::take(&mut r.errors), r.live.len(), r.cbs, r.fired));
+            sum.evaluations += 1;
+            let mut v: Vec<String> = errs;
+            if alloc::snap().errors != before { v.push(format!("allocator monitor: {}", alloc::error_detail())); }
+            if pan.is_none() { if let Err(m) = &r { v.push(format!("panicked without injection: {}", m)); } if live != 0 { v.push(format!("{} element(s) created by the scenario were never dropped (leak without any panic)", live)); } }
+            if pan.is_some() && fired && r.is_ok() && !name.contains("out of bounds") { /* the scenario swallowed the panic itself: fine */ }
+            if !v.is_empty() { sum.violation(format!("{{\"what\":{},\"observed\":{},\"expected\":\"every element dropped at most once, none that was never created, clean allocator\"}}", jstr(&format!("vec scenario battery: {} pan={:?} prof={}", name, pan, profile())), jstr(&v.join(" | ")))); }
+            cbs
+        };
+        let total = run(None);
+        if inject { for p in 0..total { run(Some(p)); } }
+    }
+    reg(|r| *r = Registry::default());
+}
+
 pub fn run(out_dir: &Path, tier: &str, seed: u64, rest: &[String]) {
     let focus = rest.iter().find_map(|a| a.strip_prefix("focus=")).unwrap_or("panic").to_string();
     let inject = focus == "panic";
@@ -736,6 +812,7 @@ pub fn run(out_dir: &Path, tier: &str, seed: u64, rest: &[String]) {
     }
     if focus == "life" { extra_types(&mut sum); }
     if focus == "refine" { api_battery(&mut sum); }
+    scenario_battery(&mut sum, inject);
     w.flush();
     sum.files = w.files.clone();
     sum.notes.push(format!("profile={} injected_runs={} allocator_errors={}", profile(), n_inj, alloc::error_detail()));
